@@ -84,13 +84,23 @@ def contributions(terms, unknown):
     """coefficient recipes with which the unknown occurs as a term after expansion (sign: side already applied)"""
     out = []
     for coef, vec in terms:
+        k = 0
         if vec == V(unknown):
-            out.append(coef)
+            k = 1
         elif vec[0] == "vadd":
-            for part in vec[1:]:
-                if part == V(unknown):
-                    out.append(coef)
+            k = sum(1 for part in vec[1:] if part == V(unknown))
+        for _ in range(k):
+            out.extend(addends(coef))
     return out
+
+
+def addends(coef):
+    """expand() distributes a vector over the addends of its coefficient: each addend is a term's coefficient"""
+    if coef[0] == "sadd":
+        return addends(coef[1]) + addends(coef[2])
+    if coef[0] == "smul" and coef[1][0] == "int":
+        return [("smul", coef[1], a) for a in addends(coef[2])]
+    return [coef]
 
 
 def sum_recipe(cs):
@@ -174,6 +184,9 @@ def solve_vector_cases(ctx):
             eq = solve_for_vector(arg, o.vecs[unknown], reduce_factor=case["reduce"])
         except Exception as e:  # pylint: disable=broad-except
             hist["refused"] += 1
+            net = sympy.expand(sum((vx.comps_of_recipe(k) for k in contributions(signed, unknown)), sympy.S.Zero))
+            if isinstance(e, ValueError) and net == 0:
+                continue            # the terms of the unknown cancel: it is not a term of the expression, refusal is right
             ctx.violation(f"C16:sfv:refused:{shown}", f"solve_for_vector refuses {shown} although {'abcdefgh'[unknown]} is a term: "
                 f"{type(e).__name__}: {e}"[:300], {**base, "observed": f"{type(e).__name__}: {e}"[:300], "expected": "an equation"}, True)
             continue
